@@ -12,7 +12,7 @@ def units(tier):
 
 META = {
     "level_if_complete": "other",
-    "functions_under_contract": [],
+    "functions_under_contract": ['linear_operator.utils.linear_cg.linear_cg', 'linear_operator.utils.linear_cg._jit_linear_cg_updates', 'linear_operator.utils.linear_cg._jit_linear_cg_updates_no_precond', 'LinearOperator._solve'],
     "trusted_base": ["real torch float64 dense linear algebra (solve, eigh, cholesky, logdet) as the oracle"],
     "assumptions": ["bounded tier only"] + list(RTC_META.get("assumptions", [])),
     "explanation": RTC_META["explanation"],
